@@ -293,6 +293,30 @@ def build_pool(rng, room):
     return pool
 
 
+def filler_ops(w, n_fill, pool=None, focus=None):
+    """A long history of plain constructions (valid, sibling, one-edit-invalid): what a bounded cache,
+    an eviction path or an "after N calls" counter needs. They carry no reference. With `focus` (a
+    version) 85 % of them are of that version's class, so that a per-class table really fills up."""
+    fill = []
+    if focus is None and w.chance(0.6):
+        focus = w.choice(list(spec.VERSIONS))
+    for _ in range(n_fill):
+        r = w.below(10)
+        if focus is not None and w.chance(0.85):
+            fill.append({"op": "new", "cls": spec.CLASS_OF[focus], "s": vectors.valid_vector(w, focus, corners=0.02), "noref": True})
+            continue
+        if r < 6 or (r < 8 and not pool):
+            version = w.choice(list(spec.VERSIONS))
+            fill.append({"op": "new", "cls": spec.CLASS_OF[version], "s": vectors.valid_vector(w, version, corners=0.05), "noref": True})
+        elif r < 8:
+            cls, how, s_ = w.choice(pool)
+            fill.append({"op": "new" if how == "ctor" else "rh", "cls": cls, "s": s_, "noref": True})
+        else:
+            version = w.choice(list(spec.VERSIONS))
+            fill.append({"op": "new", "cls": spec.CLASS_OF[version], "s": vectors.edit_vector(w, vectors.valid_vector(w, version))[1], "noref": True})
+    return fill
+
+
 def draw_run(rng, room):
     sw = {}
     sw_rng = rng.fork("swarm")
@@ -325,20 +349,16 @@ def draw_run(rng, room):
         # carry no reference (only the probes that follow are compared with the clean room)
         n_fill = sw_rng.choice([150, 300, 700, 1500])
         sw["long_history"] = n_fill
-        fill = []
-        for _ in range(n_fill):
-            r = w.below(10)
-            if r < 6:
-                version = w.choice(list(spec.VERSIONS))
-                fill.append({"op": "new", "cls": spec.CLASS_OF[version], "s": vectors.valid_vector(w, version, corners=0.05), "noref": True})
-            elif r < 8:
-                cls, how, s_ = w.choice(pool)
-                fill.append({"op": "new" if how == "ctor" else "rh", "cls": cls, "s": s_, "noref": True})
-            else:
-                version = w.choice(list(spec.VERSIONS))
-                fill.append({"op": "new", "cls": spec.CLASS_OF[version], "s": vectors.edit_vector(w, vectors.valid_vector(w, version))[1], "noref": True})
+        fill = filler_ops(w, n_fill, pool)
         actors[0]["ops"] = fill + actors[0]["ops"]
-    return sw, actors
+    sw["warmup"] = 0
+    warm = []
+    if sw_rng.chance(0.07):
+        # the same kind of history, but BEFORE the caller threads start (a cache that is already full,
+        # a table that already holds entries when the concurrent calls arrive)
+        sw["warmup"] = sw_rng.choice([150, 300, 600])
+        warm = filler_ops(rng.fork("warmup"), sw["warmup"], pool)
+    return sw, actors, warm
 
 
 # ---------------------------------------------------------------------------------------------
@@ -346,8 +366,13 @@ def draw_run(rng, room):
 # ---------------------------------------------------------------------------------------------
 
 
-def execute_in_child(actors, granularity, decider, refs, repo_prefix, guard, max_steps):
+def execute_in_child(actors, granularity, decider, refs, repo_prefix, guard, max_steps, warmup=None):
     """Runs the simulated threads; returns a JSON-able report."""
+    if warmup:
+        # history before the threads start: plain calls in this (single) thread, untraced, default context
+        wi = runner23.Interp()
+        for op in warmup:
+            wi.run_op(op, capture=True)
     term = runner23.Terminal(runner23.ScriptAgent([]), max_reads=5)
     n = len(actors)
     results = [[] for _ in range(n)]
@@ -566,6 +591,7 @@ class StateEngine(object):
         self.sweep_offset = offset
         self.sweep_coarse = max(1, coarse)
         self._sweep_plan = {}
+        self._warm = None
         self.repo = core.repo_dir()
         self.prefix = os.path.join(self.repo, "cvss") + os.sep
         self.room = None
@@ -637,10 +663,20 @@ class StateEngine(object):
             return rep["taken"][1][0] - 1 if len(rep["taken"]) > 1 else 0
 
         plan = []
-        for name, a, b in sweep_pairs():
+        todo = [(name, a, b, False) for name, a, b in sweep_pairs()]
+        if granularity == "line":
+            # the base-only pairs once more after a warm-up history of 360 distinct constructions
+            todo += [(name + ":after-warm-up", a, b, True) for name, a, b in sweep_pairs()
+                     if name in ("v3-base-only-vs-v3-base-only", "v2-base-only-vs-v2-base-only", "v4-base-only-vs-v4-base-only")]
+        for name, a, b, warm in todo:
             if pairs and name not in pairs:
                 continue
             for first, second, tag in ((a, b, "A-preempted-by-B"), (b, a, "B-preempted-by-A")):
+                if warm:
+                    # the warm-up does not change the number of points of the ops themselves
+                    base = [p for p in plan if p[0] == name[:-len(":after-warm-up")] + ":" + tag][0]
+                    plan.append((name + ":" + tag, first, second, base[3], base[4]))
+                    continue
                 n_total = points_alone(first, second)
                 n_fine = n_total
                 if first["op"] == "observe":
@@ -681,6 +717,13 @@ class StateEngine(object):
         actors = [{"env": dict(DEFAULT_ENV), "ops": [first]}, {"env": dict(DEFAULT_ENV), "ops": [second]}]
         trace = {"engine": "state", "sweep_case": [name, granularity, k, n_fine, n_total], "hashseed": self.hashseed,
                  "actors": actors, "granularity": granularity, "schedule": [[0, 0], [k, 1]]}
+        if ":after-warm-up:" in name:
+            focus = {"CVSS2": "2", "CVSS3": "3.1", "CVSS4": "4.0"}[first.get("cls") or first["a"]["cls"]]
+            if self._warm is None:
+                self._warm = {}
+            if focus not in self._warm:
+                self._warm[focus] = filler_ops(Rng(mix(20260926, "sweep-warm-up", focus)), 360, focus=focus)
+            trace["warmup"] = self._warm[focus]
         out = self._run(trace, sched.ReplayDecider(trace["schedule"]))
         out["counters"]["sweep.single_preemption_runs"] = 1
         out["counters"]["sweep.single_preemption_runs.%s" % granularity] = 1
@@ -694,7 +737,7 @@ class StateEngine(object):
             return self.import_run()
         run_seed = mix(self.seed, PROP, index)
         rng = Rng(run_seed)
-        sw, actors = draw_run(rng, self.room)
+        sw, actors, warm = draw_run(rng, self.room)
         srng = rng.fork("schedule")
         pct = []
         if sw["sched_mode"] == "pct":
@@ -704,7 +747,7 @@ class StateEngine(object):
                 pct.append(max(1, srng.below(1 << e) + (1 << e) // 2))
         decider = sched.SeededDecider(srng, sw["sched_mode"], p=sw["p"], pct_points=pct, hot_p=sw["hot_p"])
         trace = {"engine": "state", "run_seed": run_seed, "run_index": index, "hashseed": self.hashseed, "swarm": sw,
-                 "actors": actors, "granularity": sw["granularity"], "schedule": None}
+                 "actors": actors, "granularity": sw["granularity"], "schedule": None, "warmup": warm}
         return self._run(trace, decider)
 
     def execute(self, trace, shrinking=False):
@@ -720,7 +763,8 @@ class StateEngine(object):
         actors = trace["actors"]
         refs = self.refs_for(actors)
         gran = trace["granularity"]
-        rep = fork_run(lambda: execute_in_child(actors, gran, decider, refs, self.prefix, self.guard, MAX_STEPS))
+        warm = trace.get("warmup") or []
+        rep = fork_run(lambda: execute_in_child(actors, gran, decider, refs, self.prefix, self.guard, MAX_STEPS, warm))
         if "child_error" in rep:
             raise HarnessError("simulation child failed: %s" % rep["child_error"][-1500:])
         if rep["errors"]:
@@ -769,6 +813,7 @@ class StateEngine(object):
                     "fault.rejected_call_before_probe": 1 if rejected_before_probe else 0,
                     "fault.setctx_between_ops": sum(1 for a in actors for op in a["ops"] if op["op"] == "setctx"),
                     "fault.long_history_before_probe": 1 if any(op.get("noref") for a in actors for op in a["ops"]) else 0,
+                    "fault.warm_up_history_before_threads": 1 if warm else 0,
                     "cleanroom_refs": len(refs), "probe.thread_blocked_on_library_lock": rep.get("lock_waits", 0)}
         for f, c in rep["same_func"].items():
             counters["probe.preempted_while_other_thread_in_same_function:" + f] = c
@@ -790,7 +835,7 @@ class StateEngine(object):
         for a in trace["actors"]:
             n += 20 * len(a["ops"]) + sum(len(json.dumps(op)) for op in a["ops"]) // 10
             n += 0 if a["env"] == DEFAULT_ENV else 5
-        n += 2 * len(trace.get("schedule") or [])
+        n += 2 * len(trace.get("schedule") or []) + 3 * len(trace.get("warmup") or [])
         n += 50 * len([a for a in trace["actors"] if a["ops"]])
         return n
 
@@ -816,6 +861,9 @@ class StateEngine(object):
         for i, a in enumerate(actors):
             if a["env"] != DEFAULT_ENV:
                 yield with_(actors=[dict(x, env=dict(DEFAULT_ENV)) if j == i else x for j, x in enumerate(actors)])
+        if trace.get("warmup"):
+            for cand in list_deletions(trace["warmup"]):
+                yield with_(warmup=cand)
         sch = trace.get("schedule") or []
         for cand in list_deletions(sch):
             yield with_(schedule=cand)
